@@ -27,7 +27,13 @@ demo() { # returns 0 when the demonstration passes
   return 2
 }
 demo; BASE=$?
-git apply "$SEED/patch.diff" || { echo "SEED $SEED: patch does not apply"; exit 2; }
+if ! git apply "$SEED/patch.diff" 2>/dev/null; then
+  # the patch was made against an older /repo commit (recorded in $SEED/base): test it there
+  BASECOMMIT=$(cat "$SEED/base" 2>/dev/null)
+  [ -n "$BASECOMMIT" ] || { echo "SEED $SEED: patch does not apply"; exit 2; }
+  git checkout -q --detach "$BASECOMMIT" && git apply "$SEED/patch.diff" || { echo "SEED $SEED: patch does not apply to its base $BASECOMMIT either"; exit 2; }
+  echo "  (patch no longer applies to /repo HEAD; tested on its base commit $BASECOMMIT)"
+fi
 go build . ./cmd/gmars >/dev/null 2>&1 || { echo "SEED $SEED: does not compile"; exit 2; }
 go test -vet=off -count=1 . >/tmp/seedtest-suite.$$ 2>&1; SUITE=$?
 demo; MUT=$?
